@@ -64,7 +64,7 @@ ASSUMPTIONS = [
 BASE = [0.0, 1.5, -1.5, 1e-7, 123456.789, 1e10, -3.25e-4]
 FAMS = ["zero", "pm1.5", "tiny", "mid", "big", "negsmall", "mixed", "tagged", "tagged_tiny",
         "tagged_big", "tagged_int"]
-LABELSETS = [None, ["1", "2"], ["a", "B"], ["Yes", "no"]]
+LABELSETS = [None, ["1", "2"], ["a", "B"], ["Yes", "no"], [0, 1], [1, 0], [0, 2]]
 COMMENTS = {
     "none": None,
     "short": "a short comment",
@@ -115,10 +115,23 @@ def gen_cases(tier, seed):
             ts_dirs.append(d)
     targets = [(f, LOADER_DIR[f]) for f in LOADERS]
     targets += [("load_UCR_UEA_dataset", d) for d in ts_dirs if d not in LOADER_DIR.values()]
+    forms = [(sp, r) for sp in (None, "train", "test") for r in (True, False)]
     for fn, d in targets:
-        for split in (None, "train", "test"):
-            for rxy in (True, False):
-                yield dict(kind="c", loader=fn, dataset=d, split=split, return_X_y=rxy)
+        for split, rxy in forms:
+            yield dict(kind="c", loader=fn, dataset=d, split=split, return_X_y=rxy)
+    # call histories in one process: every ordered pair (thorough: triple) of loader calls; the
+    # last call is judged exactly like a first call (loaders must not share state between calls)
+    for fn, d in targets:
+        for pre in forms:
+            for split, rxy in forms:
+                yield dict(kind="c", loader=fn, dataset=d, split=split, return_X_y=rxy,
+                           pre=[list(pre)])
+        if tier != "quick":
+            for pre1 in forms:
+                for pre2 in forms:
+                    for split, rxy in (forms[0], forms[3]):
+                        yield dict(kind="c", loader=fn, dataset=d, split=split, return_X_y=rxy,
+                                   pre=[list(pre1), list(pre2)])
 
 
 # ------------------------------------------------------------- independent tokenizers
@@ -487,11 +500,16 @@ def _part_c(case, res):
         ref[p] = tok_ts(_read(os.path.join(_datadir(), d, "%s_%s.ts" % (d, p))))[1]
     exp = ref["TRAIN"] + ref["TEST"] if split is None else ref[split.upper()]
     fn = getattr(base, case["loader"])
+    for psplit, prxy in case.get("pre", []):
+        if case["loader"] == "load_UCR_UEA_dataset":
+            call(fn, d, psplit, prxy)
+        else:
+            call(fn, split=psplit, return_X_y=prxy)
     if case["loader"] == "load_UCR_UEA_dataset":
         o = call(fn, d, split, rxy)
     else:
         o = call(fn, split=split, return_X_y=rxy)
-    sk = "none" if split is None else "split"
+    sk = ("none" if split is None else "split") + (":after-calls" if case.get("pre") else "")
     res.outcome("c:%s:%s:%s" % (sk, "Xy" if rxy else "frame", o.kind))
     key = "c:%s" % sk
     if not o.ok:
@@ -506,6 +524,11 @@ def _part_c(case, res):
             return res
         X, y = out
         y = list(np.asarray(y))
+        if getattr(X, "shape", (0, 0))[1] != nd:
+            res.violate(key + ":columns", "X of the (X, y) form does not have exactly the "
+                        "dataset's dimensions as columns", expected=nd,
+                        observed=list(getattr(X, "columns", [])))
+            return res
     else:
         if not isinstance(out, pd.DataFrame) or out.shape[1] != nd + 1:
             res.violate("c:form:frame", "return_X_y=False should return one frame with the "
@@ -528,7 +551,7 @@ def _part_c(case, res):
             return res
     if compare_panel(res, key, X, y, exp, "%s(split=%r, return_X_y=%r) vs the files"
                      % (case["loader"], split, rxy)):
-        res.nt(("c", case["loader"], d, split, rxy))
+        res.nt(("c", case["loader"], d, split, rxy, str(case.get("pre"))))
     return res
 
 
